@@ -133,6 +133,14 @@ Theorem c02_checker_sound : forall rc r i h outs, stream_ok false rc r i h outs 
 Proof. exact stream_ok_sound. Qed.
 Print Assumptions c02_checker_sound.
 
+(** The judge of completed concurrent histories implies its Prop reading: delta reader - the
+    delivered values add up to the totals recorded for every attribute set; cumulative reader - the
+    last delivery shows exactly the totals. *)
+Theorem c02_conc_checker_sound : forall delta nonneg adds outs,
+  conc_stream_ok delta nonneg adds outs = true -> ConcOk delta adds outs.
+Proof. exact conc_stream_ok_sound. Qed.
+Print Assumptions c02_conc_checker_sound.
+
 (** ** Non-vacuity *)
 Definition ex_cfgs : list rcfg := [ {| rk := RPeriodic; r_delta := true; r_cb := true |}; {| rk := RManual; r_delta := false; r_cb := true |} ].
 (** three threads (7, 8, 9) adding while reader 0 collects in the middle of thread 7's fan-out *)
